@@ -23,7 +23,7 @@ def corpus():
 
 
 def generate(rng, tier):
-    n = 40 if tier == "quick" else 1200
+    n = 60 if tier == "quick" else 1200
     cases = []
     for i in range(n):
         parallel = rng.random() < 0.6
